@@ -22,7 +22,9 @@ LEVEL = "exploration"
 RULE = ("(a) in-process: 2-3 tasks per terminal run sdo_read, expedited "
         "sdo_write and coe_request concurrently through the simulated "
         "mailbox with seeded response latencies, once with MailboxLock and "
-        "once with ParallelMailboxLock over a real lock file; the terminal "
+        "once with ParallelMailboxLock over a real lock file, plus histories "
+        "in which a user queued behind a slow exchange is cancelled while "
+        "it waits and another user starts afterwards; the terminal "
         "model records every mailbox write (counter, owner tag = unique "
         "index per task) and read; (b) creation window: a second LockFile "
         "is opened at every point between the first opener's O_EXCL create "
@@ -151,6 +153,93 @@ def inproc_history(rng, parallel, tmpdir):
             evs.append(("R",))
     return evs, errors, dict(tasks=ntask, plan=plan_, gaps=gaps,
                              parallel=parallel, latencies=lats[:12])
+
+
+def cancel_waiter_history(rng, parallel, tmpdir):
+    """A holds the mailbox (slow response), B queues behind it and is
+    cancelled while it waits, C starts afterwards: B's cancellation must not
+    let C into A's exchange"""
+    t = bus.SimTerminal("T", station=40)
+    struct.pack_into("<HHBBBB", t.mem, 0x800, 0x1000, 64, 0x26, 0, 1, 0)
+    struct.pack_into("<HHBBBB", t.mem, 0x808, 0x1400, 64, 0x22, 0, 1, 0)
+    objs = {}
+    for k in range(4):
+        for s_ in range(1, 4):
+            objs[0x7000 + k, s_] = bytes([k, s_, 7, 9])
+    srv = InfoServer(objs, 64, 64)
+    t.mbx_handler = srv.handle
+    lats = [rng.choice([5, 6, 8])] + [rng.choice([0, 1, 2, 4])
+                                     for _ in range(32)]
+    it = iter(lats)
+    t.mbx_resp_latency = lambda: next(it, 0)
+    b = bus.Bus([t])
+    errors = []
+    nvict = rng.choice([1, 1, 2])
+    wait_before = rng.randint(1, 3)
+    info = dict(victims_waiting=0)
+
+    async def main(loop):
+        ec = EtherCat("vf")
+        bus.attach(ec, loop, b)
+        term = Terminal(ec)
+        term.position = 40
+        term.mbx_out_off, term.mbx_out_sz = 0x1000, 64
+        term.mbx_in_off, term.mbx_in_sz = 0x1400, 64
+        if parallel:
+            lf = LockFile(os.path.join(tmpdir, f"lf{rng.getrandbits(30)}"),
+                          0, 100)
+            term.mbx_lock = ParallelMailboxLock(lf, 40)
+        else:
+            term.mbx_lock = MailboxLock()
+
+        async def user(k, n):
+            for i in range(n):
+                try:
+                    r = await term.sdo_read(0x7000 + k, 2)
+                    if r != bytes([k, 2, 7, 9]):
+                        errors.append(f"user {k} read {r!r}")
+                except asyncio.CancelledError:
+                    raise
+                except Exception as ex:
+                    errors.append(f"user {k}: {type(ex).__name__}: "
+                                  f"{str(ex)[:60]}")
+        a = asyncio.ensure_future(user(0, 1))
+        await asyncio.sleep(0)
+        victims = [asyncio.ensure_future(user(1 + i, 1))
+                   for i in range(nvict)]
+        for _ in range(wait_before):
+            await asyncio.sleep(0)
+        if not a.done():
+            info["victims_waiting"] = nvict
+        for v in victims:
+            v.cancel()
+        await asyncio.sleep(0)
+        c = asyncio.ensure_future(user(3, 2))
+        await asyncio.wait_for(asyncio.gather(a, c), 500)
+        for v in victims:
+            if not v.cancelled():
+                errors.append("cancelled waiter did not end cancelled")
+    try:
+        aio.run(main)
+    except Exception as ex:
+        errors.append(f"history aborted: {type(ex).__name__}: {ex}")
+    evs = []
+    for e in t.events:
+        if e[0] == "mbx_write":
+            msg = e[1]
+            length, addr, chan, tc = struct.unpack_from("<HHBB", msg, 0)
+            body = msg[6:6 + length]
+            coe = struct.unpack_from("<H", body, 0)[0] >> 12
+            owner = None
+            if coe == 2 and len(body) >= 5:
+                owner = struct.unpack_from("<H", body, 3)[0] - 0x7000
+            evs.append(("W", tc >> 4, owner, coe))
+        elif e[0] == "mbx_read":
+            evs.append(("R",))
+    return evs, errors, dict(kind="cancelled-waiter", tasks=2 + nvict,
+                             parallel=parallel, latencies=lats[:6],
+                             wait_before=wait_before,
+                             victims_waiting=info["victims_waiting"])
 
 
 def check_events(evs):
@@ -441,6 +530,21 @@ def run_shard(params):
                             f"clients failed: {errors[:3]}", case=desc)
                     elif len(res.samples) < 2:
                         res.sample(dict(desc, events=evs[:16]))
+                    # a queued user is cancelled while another holds the lock
+                    evs, errors, desc = cancel_waiter_history(rng, parallel,
+                                                              tmpdir)
+                    res.case(desc, nontrivial=desc["victims_waiting"] > 0)
+                    res.count("histories_cancelled_waiter")
+                    res.count("waiters_cancelled", desc["victims_waiting"])
+                    bad = check_events(evs)
+                    if bad or errors:
+                        res.violation(
+                            "unexplained:cancelled-waiter-" +
+                            (bad[0] if bad else "client-error"),
+                            (bad[1] if bad else f"clients failed: "
+                             f"{errors[:3]}"), case=desc,
+                            witness=dict(events=evs[:40],
+                                         errors=errors[:4]))
         elif params["mode"] == "window":
             window_leg(res, tmpdir)
         else:
@@ -454,7 +558,7 @@ def run_shard(params):
 def finalize(res, tier, seed):
     c = res.counters
     for k in ("histories_mailbox_lock", "histories_parallel_lock",
-              "window_points", "xproc_exchanges"):
+              "window_points", "xproc_exchanges", "waiters_cancelled"):
         if not c.get(k):
             res.inconc(f"{k}: leg did not run")
     if not c.get("xproc_owner_switches"):
